@@ -303,6 +303,13 @@ def _c07_like(prop, tier, seed, case, keep):
         r['violations'] = [x for x in r['violations'] if keep(x['sig'])]
         r['violation_counts'] = {k: n for k, n in r['violation_counts'].items() if keep(k)}
         v.add_run(r)
+    if prop == 'C07' and not case:
+        # the unoptimised build (recursion is not turned into a loop there, frames are large): every
+        # case of the classes made for it and a sample of all the others
+        r = c07_supervisor.run(prop, 'noopt', tier, seed, sample=(16 if tier == 'thorough' else 40), tag='c07-noopt')
+        r['violations'] = [x for x in r['violations'] if keep(x['sig'])]
+        r['violation_counts'] = {k: n for k, n in r['violation_counts'].items() if keep(k)}
+        v.add_run(r)
     if tier == 'thorough' and not case:
         r = run_miri(prop, 'c07worker', tier, seed, opts={'sample': 300}, shards=16)
         r['violations'] = [x for x in r['violations'] if keep(x['sig'])]
